@@ -26,13 +26,13 @@ ASSUMPTIONS = [
     "after save_load the old module objects are stale handles that still belong to the discarded project object",
 ]
 REQUIRED_LABELS = {
-    "quick": ["gap_filled", "refused_module", "refused_pattern", "reattach_own", "attach_after_save_load", "note_mod_set", "note_mod_none", "interior_gap", "iadd_list", "attach_origin_synth_file", "attach_origin_clone", "attach_origin_clone_of_attached", "iadd_nested", "iadd_nested_into_gaps", "project_with_more_than_255_modules", "attach_origin_ctor_parent_kw", "module_flags_assigned"],
+    "quick": ["gap_filled", "refused_module", "refused_pattern", "reattach_own", "attach_after_save_load", "note_mod_set", "note_mod_none", "interior_gap", "iadd_list", "attach_origin_synth_file", "attach_origin_clone", "attach_origin_clone_of_attached", "iadd_nested", "iadd_nested_into_gaps", "project_with_more_than_255_modules", "attach_origin_ctor_parent_kw", "attach_origin_ctor_parent_index_kw", "module_flags_assigned"],
     "thorough": ["gap_filled", "refused_module", "refused_pattern", "reattach_own", "attach_after_save_load", "note_mod_set", "note_mod_none", "interior_gap", "iadd_list", "note_mod_unattached_refused", "attach_origin_synth_file", "attach_origin_clone", "attach_origin_clone_of_attached"],
 }
 TYPES = ["Amplifier", "Generator", "Filter", "MultiSynth", "Echo"]
 # where an unattached module comes from: constructed, loaded from a .sunsynth file, a clone of an
 # unattached module, a clone of a module that sits in some project at a position > 0
-ORIGINS = ["new", "new", "synth_file", "clone", "clone_of_attached", "ctor_parent_kw"]
+ORIGINS = ["new", "new", "synth_file", "clone", "clone_of_attached", "ctor_parent_kw", "ctor_parent_index_kw"]
 
 
 def exhaustive(tier):
@@ -109,6 +109,16 @@ class World:
     def fresh(self, tname, origin="new", for_project=None):
         from rv.api import Synth, read_sunvox_file
 
+        if origin == "ctor_parent_index_kw" and for_project is None:
+            origin = "new"
+        if origin == "ctor_parent_index_kw":
+            # both keywords of the constructor: the future owner and a position the caller has in mind (taken or not,
+            # inside the list or beyond it); where the module really lands is decided when it is attached
+            n_ = len(for_project.modules)
+            mod = build.cls_of(tname)(parent=for_project, index=(n_ * 7 + 1) % (n_ + 3))
+            if any(x is mod for x in for_project.modules):
+                raise PropertyViolation("C14.ctor_parent_kw", "constructing a module with parent= and index= already put it into the project")
+            return mod
         if origin == "ctor_parent_kw" and for_project is not None:
             # the constructor takes the future owner as a keyword; the module is not in the list until attached
             mod = build.cls_of(tname)(parent=for_project)
